@@ -1451,9 +1451,13 @@ fn binary_search_by_time_us(time_us: u64, fc: &FileContext, stream: &StreamConte
         BTreeMap::<LifecycleId, u64>::new()
     };
     // first msg not before time_us (binary_search_by would return any of the msgs with an equal time)
+    // we use the same time as buffer_sort_messages: reception time for control requests (their timestamp is from the logger),
+    // otherwise lifecycle start + timestamp (but not later than the reception time)
     let all_msgs_idx = fc.all_msgs.partition_point(|m| {
-        let m_time = if let Some(lc_start_time) = lc_id_map.get(&m.lifecycle) {
-            lc_start_time + m.timestamp_us()
+        let m_time = if m.is_ctrl_request() {
+            m.reception_time_us
+        } else if let Some(lc_start_time) = lc_id_map.get(&m.lifecycle) {
+            std::cmp::min(lc_start_time + m.timestamp_us(), m.reception_time_us)
         } else {
             m.reception_time_us
         };
